@@ -949,9 +949,12 @@ LINK_CONF = ["link-conf-accept", "link-conf-kind", "link-conf-obj", "load-conf"]
 
 @check("C20")
 def c20(run):
-    run.mc_leg("mc_link", "MC_Link", "MC_Link.cfg", workers=16)
     run.rec_leg("link", ["link"], verdict=["panic", "link-accept", "link-image", "link-labels", "link-rel", "order-success", "order-core",
                                            "order-labels", "set-accept", "set-image", "set-rel", "set-labels", "unknown-event"])
+    # MC + RP: every selection MC_Link checks (pairs; thorough: also triples) is assembled and linked by the real crate
+    run.rp_rec_leg("rp_link", "MC_LinkRP", "MC_LinkRP3.cfg" if run.tier == "thorough" else "MC_LinkRP2.cfg", "link", "MC_Link_ops.ndjson",
+                   verdict=["panic", "link-accept", "link-image", "link-labels", "link-rel", "order-success", "order-core",
+                            "order-labels", "set-accept", "set-image", "set-rel", "set-labels", "unknown-event"], workers=16)
     return run.finish(
         rule="sets of 2-4 generated files (shared labels defined in one file and declared external in others, labels "
              "defined twice at different addresses, the same label at one address through a label on an .end line, externals "
@@ -983,8 +986,9 @@ def c21(run):
 
 @check("C22")
 def c22(run):
-    run.mc_leg("mc_link", "MC_Link", "MC_Link.cfg", workers=16)
     run.rec_leg("link", ["link", "alldbg=1"], verdict=["panic", "dbg-lines", "dbg-labels", "unknown-event"])
+    run.rp_rec_leg("rp_link", "MC_LinkRP", "MC_LinkRP3.cfg" if run.tier == "thorough" else "MC_LinkRP2.cfg", "link", "MC_Link_ops.ndjson",
+                   verdict=["panic", "dbg-lines", "dbg-labels", "unknown-event"], workers=16)
     return run.finish(
         rule="pairs and triples (some quadruples) of generated files assembled with debug symbols and linked in every order "
              "and bracketing; for every link step the harness records, for every mapped address of the operands and of the "
